@@ -30,6 +30,19 @@ from .passes import (
 ElaboratableType = TypeVar("ElaboratableType", bound=Elaboratables)
 
 
+# The post-flattening repeats of the checking passes.
+# Each `ElabPass` class keeps a class-level cache of the Modules it has visited.
+# Repeating `ConnTypes` and `Orphanage` *themselves* would therefore skip every Module, having seen them all in their first run.
+# The repeats are sub-classes, which get caches of their own.
+class PostFlattenConnTypes(ConnTypes):
+    """# Connection-type checks, repeated on the flattened Modules"""
+
+
+class PostFlattenOrphanage(Orphanage):
+    """# Orphan checks, repeated on the flattened Modules"""
+
+
+
 @datatype
 class Elaborator:
     """
@@ -57,8 +70,8 @@ class Elaborator:
                 #
                 # A couple repeats
                 #
-                ConnTypes,
-                Orphanage,
+                PostFlattenConnTypes,
+                PostFlattenOrphanage,
                 #
                 # And final module-marking
                 #
